@@ -210,6 +210,9 @@ func SenderConfig(prop string, r *Rand, tier string) map[string]int64 {
 			c["w_opt"] = int64(r.Range(1, 3))
 		}
 	}
+	// L1 reorgs above the finalized block; the L1 info store is brought in line later (at its next sync step): in
+	// between it holds blocks of the dropped fork, possibly below a finalized pointer that has moved on
+	c["w_l1reorg"] = int64([]int{0, 0, 0, 1, 2, 4}[r.Intn(6)])
 	c["real_proofs"] = 0
 	if prop == "C09" || r.Bool(30) {
 		c["real_proofs"] = 1
@@ -228,6 +231,8 @@ type senderWorld struct {
 	l1g  *L1Gen
 	l1s  *L1Store
 	l1synced uint64
+	// l1staleFrom: first block of the L1 info store that belongs to a dropped L1 fork (0: none)
+	l1staleFrom uint64
 	l2m  *BridgeModel
 	l2s  *BridgeStore
 	l2r  *l2Recorder
@@ -959,6 +964,14 @@ func runSender(prop string, tr *Trace, sc *Script, rec *Recorder, scratch string
 	defer func() { s.stopNode() }()
 
 	syncL1 := func(to uint64) *Violation {
+		if s.l1staleFrom != 0 {
+			// the L1 info syncer handles the reorg: rewind first
+			if err := s.l1s.Reorg(s.l1staleFrom); err != nil {
+				return &Violation{Oracle: "harness", Detail: fmt.Sprintf("l1 store Reorg(%d): %v", s.l1staleFrom, err)}
+			}
+			s.l1synced, s.l1staleFrom = s.l1staleFrom-1, 0
+			rec.Stats.Inc("l1_store_rewound_after_l1_reorg")
+		}
 		for s.l1synced < to && s.l1synced < s.l1.HeadNum() {
 			b := s.l1.Canon[s.l1synced+1]
 			mb, _ := b.Payload.(MBlock)
@@ -983,7 +996,10 @@ func runSender(prop string, tr *Trace, sc *Script, rec *Recorder, scratch string
 	gen := func(r *Rand) (Op, bool) {
 		labels := s.w.ParkedLabels()
 		wts := []int{int(cfg["w_l1mine"]), int(cfg["w_l1fin"]), int(cfg["w_l1sync"]), int(cfg["w_l2block"]), int(cfg["w_epoch"]), int(cfg["w_time"]),
-			int(cfg["w_rel"]), int(cfg["w_move"]), int(cfg["w_fault"]), int(cfg["w_lost"]), int(cfg["w_crash"]), int(cfg["w_losedb"]), int(cfg["w_savefault"]), int(cfg["w_pvodd"]), int(cfg["w_opt"]), int(cfg["w_crashsubmit"]), int(cfg["w_contradict"]), int(cfg["w_l2reorg"]), int(cfg["w_l2reorg"])}
+			int(cfg["w_rel"]), int(cfg["w_move"]), int(cfg["w_fault"]), int(cfg["w_lost"]), int(cfg["w_crash"]), int(cfg["w_losedb"]), int(cfg["w_savefault"]), int(cfg["w_pvodd"]), int(cfg["w_opt"]), int(cfg["w_crashsubmit"]), int(cfg["w_contradict"]), int(cfg["w_l2reorg"]), int(cfg["w_l2reorg"]), int(cfg["w_l1reorg"])}
+		if s.l1.HeadNum() <= s.l1.Finalized {
+			wts[19] = 0
+		}
 		if o := s.ag.open(); o == nil || s.nodeIsBuilding() || o.To <= s.l2ReorgFloorWithout(o) {
 			wts[18] = 0
 		}
@@ -1017,6 +1033,8 @@ func runSender(prop string, tr *Trace, sc *Script, rec *Recorder, scratch string
 			wts[15] *= 6 // the window is short: take it when it is open
 		}
 		switch r.Pick(wts) {
+		case 19:
+			return Op{K: "l1reorg", A: []int64{int64(r.U64() >> 1), int64(r.Range(1, 4)), int64(r.Range(1, 5))}}, true
 		case 0:
 			return Op{K: "l1mine", A: []int64{int64(r.U64() >> 1), int64(r.Range(1, 4))}}, true
 		case 1:
@@ -1075,7 +1093,31 @@ func runSender(prop string, tr *Trace, sc *Script, rec *Recorder, scratch string
 				s.l1.Mine(r.U64(), s.l1g.Fill(r, int(cfg["l1_density"])))
 			}
 			rec.Step("A")
+		case "l1reorg":
+			d := uint64(op.Arg(1))
+			if s.l1.HeadNum() <= s.l1.Finalized {
+				return nil
+			}
+			if d > s.l1.HeadNum()-s.l1.Finalized {
+				d = s.l1.HeadNum() - s.l1.Finalized
+			}
+			keep := s.l1.HeadNum() - d
+			r := NewRand(uint64(op.Arg(0)))
+			s.l1.Rewind(keep)
+			s.l1g.Rebuild(s.l1)
+			for i := int64(0); i < op.Arg(2); i++ {
+				s.l1.Mine(r.U64(), s.l1g.Fill(r, int(cfg["l1_density"])))
+			}
+			rec.Stats.Inc("l1_reorgs")
+			if s.l1synced > keep && (s.l1staleFrom == 0 || keep+1 < s.l1staleFrom) {
+				s.l1staleFrom = keep + 1
+				rec.Stats.Inc("l1_reorgs_of_blocks_the_l1_info_store_holds")
+			}
+			rec.Step(fmt.Sprintf("K%d", d))
 		case "l1fin":
+			if s.l1staleFrom != 0 && s.l1.Finalized+uint64(op.Arg(0)) >= s.l1staleFrom {
+				rec.Stats.Inc("finality_passed_blocks_the_l1_info_store_still_holds_from_a_dropped_fork")
+			}
 			s.l1.Finalized = min(s.l1.Finalized+uint64(op.Arg(0)), s.l1.HeadNum())
 			s.l1.Safe = max(s.l1.Safe, s.l1.Finalized)
 			rec.Step("F")
